@@ -33,6 +33,12 @@ res = {}
 with ThreadPoolExecutor(max_workers=a.j) as ex:
     for name, out in ex.map(one, seeds):
         res[name] = out
+        try:
+            _old = json.load(open(os.path.join(SD, 'sweep.json')))
+        except Exception:
+            _old = {}
+        _old.update(res)
+        json.dump(dict(sorted(_old.items())), open(os.path.join(SD, 'sweep.json'), 'w'), indent=1)
         print(name, ' '.join('%s=%d' % (p, v['rc']) for p, v in out.items()))
         for p, v in out.items():
             for l in v['lines']:
